@@ -65,12 +65,13 @@ theorem takeN_append (v r : Bytes) : takeN v.length (v ++ r) = some (v, r) := by
 
 theorem takeN_some {n : Nat} {b x r : Bytes} (h : takeN n b = some (x, r)) :
     x.length = n ∧ b = x ++ r := by
-  unfold takeN at h
+  simp only [takeN] at h
   split at h
-  · simp at h
+  · rename_i hl
+    simp at h
     obtain ⟨h1, h2⟩ := h
     subst h1 h2
-    refine ⟨by simp; omega, by simp⟩
+    exact ⟨hl, by simp⟩
   · simp at h
 
 theorem fixed_lawful (n : Nat) : (fixed n).Lawful where
